@@ -1,5 +1,12 @@
-(** Correspondence + monitor entry points for C08 (used by generated cases). *)
-From KaiV Require Export Run.Prelude Model.Capacity Model.CapacitySpec.
+(** Correspondence + monitor entry points for C08 (used by generated cases).
+
+    A case is ONE session of the real scheduler: the snapshot it was opened on
+    ([k_init]: every pod with the status the snapshot gave it), what the
+    plugin reports right after session open, and the decisions taken in it.
+    The sessions of a multi-cycle history are separate cases; the snapshot of a
+    later cycle is what the harness derived from the end of the previous
+    session (its label carries the whole history). *)
+From KaiV Require Export Run.Prelude Model.Status Model.Capacity Model.CapacitySpec.
 From Coq Require Export QArith.
 Open Scope Q_scope.
 
@@ -30,10 +37,23 @@ Record oqueue := { oq_id : positive; oq_alloc : rq }.
     is Allocated, Pipelined, Binding, Bound or Running *)
 Record obs := { ob_queues : list oqueue; ob_holders : list positive }.
 
+(** one pod of the snapshot the session was opened on: queue and preemptibility
+    of its job, the status the snapshot gave it (pod_info.NewTaskInfoWithBindRequest
+    -> getTaskStatus on the pod's phase / deletionTimestamp / nodeName / BindRequest
+    / scheduling gates; Allocated is set by hand), and in [ot_charge] of its task
+    QuantifyResourceRequirements(AcceptedResource) as the snapshot left it (the
+    node's AddTasksToNode sets it for the pods it accounts; empty otherwise) *)
+Record ipod := { ip_queue : positive; ip_preempt : bool; ip_status : status;
+                 ip_on_node : bool;   (* it names a node (spec.nodeName or the BindRequest's SelectedNode) *)
+                 ip_task : otask }.
+
 Record case := {
   k_queues : list queue;
-  k_init : list (positive * bool * otask);    (* the snapshot's running tasks: queue, preemptible, task *)
+  k_min_mem : positive;                       (* ClusterInfo.MinNodeGPUMemory *)
+  k_init : list ipod;                         (* every pod of every job of the snapshot that is not decided on in k_steps *)
   k_init_obs : option obs;
+  k_init_fair : option (list oqueue);         (* Session.QueueFairShare of the root queues right after session open
+                                                 (the only exported view on Request); None when some float64 term of it is inexact *)
   k_steps : list (ostep * option obs);
 }.
 
@@ -52,13 +72,16 @@ Definition res_is {A} (e : A -> A -> bool) (r : result A) (x : A) : bool :=
 Definition proj_gpu (g : Q) : Q := let a := with_gpus g in ext_gpus (g_portion a) (g_count a).
 Definition proj (x : rq) : rq := {| r_cpu := r_cpu x; r_mem := r_mem x; r_gpu := proj_gpu (r_gpu x) |}.
 
+Definition queues_agree (alloc_of : positive -> option rq) (l : list oqueue) : bool :=
+  forallb (fun oq => match alloc_of (oq_id oq) with
+                     | Some a => rq_eqb (proj a) (oq_alloc oq)
+                     | None => false
+                     end) l.
+
 Definition obs_agree (alloc_of : positive -> option rq) (o : option obs) : bool :=
   match o with
   | None => true
-  | Some ob => forallb (fun oq => match alloc_of (oq_id oq) with
-                                  | Some a => rq_eqb (proj a) (oq_alloc oq)
-                                  | None => false
-                                  end) (ob_queues ob)
+  | Some ob => queues_agree alloc_of (ob_queues ob)
   end.
 
 (** the model's ledger and the pods that really hold resources are the same set of tasks *)
@@ -149,28 +172,77 @@ Fixpoint agree_steps (fuel : nat) (s : state) (xs : list (ostep * option obs)) :
       end
   end.
 
-(** the snapshot: updateQueuesCurrentResourceUsage over the running tasks *)
-Fixpoint load_init (fuel : nat) (s : state) (l : list (positive * bool * otask)) : option state :=
+(** the snapshot: updateQueuesCurrentResourceUsage ([load_init], [load_requests]
+    of Model/Capacity.v) over the pods of the snapshot, in whatever status they are.
+    AcceptedResource of a snapshot pod: NodeInfo.setAcceptedResources fills it
+    for the pods in an active-used status (which are exactly the ones
+    AddTasksToNode puts on the node they name); it stays empty for the others. *)
+Definition accepted_at_open (st : status) (on_node : bool) (nm : positive) (t : task) : rq :=
+  if on_node && active_used st then charge nm t else rq_zero.
+
+Definition spod_of (min_mem : positive) (p : ipod) : option spod :=
+  let o := ip_task p in
+  let c := accepted_at_open (ip_status p) (ip_on_node p) (ot_nm o) (ot_task o) in
+  match ot_charge o with
+  | Some oc =>
+      if rq_eqb c oc
+      then Some {| sp_task := t_id (ot_task o); sp_queue := ip_queue p; sp_preempt := ip_preempt p;
+                   sp_status := ip_status p; sp_accepted := c; sp_request := pending_request min_mem (ot_task o) |}
+      else None
+  | None => None
+  end.
+
+Fixpoint spods_of (min_mem : positive) (l : list ipod) : option (list spod) :=
   match l with
-  | [] => Some s
-  | (jq, pre, o) :: r =>
-      let c := charge (ot_nm o) (ot_task o) in
-      match snapshot_charge fuel (s_queues s) jq pre c, ot_charge o with
-      | Done qs, Some oc =>
-          if rq_eqb c oc
-          then load_init fuel {| s_queues := qs;
-                                 s_ledger := {| e_task := t_id (ot_task o); e_queue := jq; e_preempt := pre; e_charge := c |}
-                                             :: s_ledger s |} r
-          else None
-      | _, _ => None
+  | [] => Some []
+  | p :: r => match spod_of min_mem p, spods_of min_mem r with
+              | Some x, Some xs => Some (x :: xs)
+              | _, _ => None
+              end
+  end.
+
+(** the pods the steps decide on are Pending pods of the same snapshot: they count in Request *)
+Definition step_pods (min_mem : positive) (xs : list (ostep * option obs)) : list spod :=
+  flat_map (fun xo => match fst xo with
+                      | OProbe jq pre ts _ _ | OAdmit jq pre ts _ _ =>
+                          map (fun o => {| sp_task := t_id (ot_task o); sp_queue := jq; sp_preempt := pre; sp_status := Pending;
+                                           sp_accepted := rq_zero; sp_request := pending_request min_mem (ot_task o) |}) ts
+                      | _ => []
+                      end) xs.
+
+(** Request is exported only through the fair share computed from it at
+    session open. For a ROOT queue on a cluster whose total exceeds everything
+    requested (the harness's nodes), resource_division gives exactly
+    GetRequestableShare(): Request, capped by MaxAllowed unless that is -1. *)
+Definition capq (lim x : Q) : Q := if Qeq_bool lim unlimited then x else if Qle_bool lim x then lim else x.
+Definition model_fair (qs : list queue) (m : reqmap) (id : positive) : option rq :=
+  match find_queue qs id with
+  | Some q => let x := req_get m id in
+              Some {| r_cpu := capq (r_cpu (q_limit q)) (r_cpu x); r_mem := capq (r_mem (q_limit q)) (r_mem x);
+                      r_gpu := capq (r_gpu (q_limit q)) (r_gpu x) |}
+  | None => None
+  end.
+
+Definition fair_agrees (k : case) (ps : list spod) : bool :=
+  match k_init_fair k with
+  | None => true
+  | Some l =>
+      match load_requests (default_fuel (k_queues k)) (k_queues k) [] (ps ++ step_pods (k_min_mem k) (k_steps k)) with
+      | Done m => queues_agree (model_fair (k_queues k) m) l
+      | _ => false
       end
   end.
 
 Definition model_agrees (k : case) : bool :=
   let fuel := default_fuel (k_queues k) in
-  match load_init fuel {| s_queues := k_queues k; s_ledger := [] |} (k_init k) with
-  | Some s => obs_agree (model_alloc (s_queues s)) (k_init_obs k) && holders_agree (s_ledger s) (k_init_obs k)
-              && agree_steps fuel s (k_steps k)
+  match spods_of (k_min_mem k) (k_init k) with
+  | Some ps =>
+      match load_init fuel {| s_queues := k_queues k; s_ledger := [] |} ps with
+      | Done s => obs_agree (model_alloc (s_queues s)) (k_init_obs k) && holders_agree (s_ledger s) (k_init_obs k)
+                  && fair_agrees k ps
+                  && agree_steps fuel s (k_steps k)
+      | _ => false
+      end
   | None => false
   end.
 
@@ -270,13 +342,24 @@ Fixpoint monitor_steps (qs : list queue) (led : list entry) (xs : list (ostep * 
       end
   end.
 
-Fixpoint init_entries (l : list (positive * bool * otask)) : option (list entry) :=
+(** the truth a cycle starts from: the pods of the snapshot that hold resources
+    or are about to -- status Allocated, Binding (bind request in flight), Bound
+    or Running, i.e. the [allocated_status] class -- each with the
+    AcceptedResource observed on it.  Nothing of the plugin is consulted. *)
+Fixpoint init_entries (l : list ipod) : option (list entry) :=
   match l with
   | [] => Some []
-  | (jq, pre, o) :: r => match obs_entry jq pre o, init_entries r with
-                         | Some e, Some es => Some (es ++ [e])
-                         | _, _ => None
-                         end
+  | p :: r =>
+      match init_entries r with
+      | Some es =>
+          if allocated_status (ip_status p)
+          then match obs_entry (ip_queue p) (ip_preempt p) (ip_task p) with
+               | Some e => Some (e :: es)
+               | None => None
+               end
+          else Some es
+      | None => None
+      end
   end.
 
 Definition monitor_ok (k : case) : bool :=
@@ -284,6 +367,9 @@ Definition monitor_ok (k : case) : bool :=
   | Some led =>
       (* the caps are only meaningful on a forest; the generator never emits a cycle *)
       wf_forest (k_queues k)
+      (* the pods Go's own IsActiveAllocatedStatus finds in the opened session are exactly those *)
+      && holders_agree led (k_init_obs k)
+      (* what the plugin seeded at session open is that truth, at every level *)
       && counters_obs_ok (k_queues k) (model_alloc (k_queues k)) led (k_init_obs k)
       && monitor_steps (k_queues k) led (k_steps k)
   | None => false
